@@ -1000,6 +1000,12 @@ impl Model {
         }
         let passes: &[bool] = if self.prop == "C01" { &[false] } else { &[false, true] };
         for &any_qos in passes {
+        // What still exists explains a forward before what has ended (an ended subscription or
+        // membership only explains what may have been on its way): plain subscriptions in
+        // force, memberships in force, ended plain subscriptions, ended memberships.
+        for stage in 0..4u8 {
+        if stage % 2 == 0 {
+        let want_active = stage == 0;
         let mut next: Vec<Vec<u32>> = vec![];
         let mut attr: Option<(u32, u32)> = None;
         let mut n_attr = 0;
@@ -1008,7 +1014,7 @@ impl Model {
             let mut seen: HashSet<Vec<u32>> = HashSet::new();
             for pos in c.frontier.iter() {
                 for (j, s) in c.subs.iter().enumerate() {
-                    if s.group.is_some() || !(any_qos || s.serves(qos)) {
+                    if s.group.is_some() || s.active != want_active || !(any_qos || s.serves(qos)) {
                         continue;
                     }
                     let p = pos[j];
@@ -1069,9 +1075,12 @@ impl Model {
             }
             return;
         }
+        continue;
+        }
         // ---- forward through a shared group
         // (a membership that has ended still explains messages accepted before it ended:
         // they may sit in the member's buffer)
+        let want_ended = stage == 3;
         let newest_undelivered = self
             .gmsgs
             .iter()
@@ -1083,6 +1092,7 @@ impl Model {
             .iter()
             .filter(|s| {
                 s.group.is_some()
+                    && s.active != want_ended
                     && (any_qos || s.serves(qos))
                     && ref_matches(topic, &s.match_filter)
                     && (s.active || newest_undelivered.is_some_and(|i| s.closed_at.is_some_and(|c| i < c)))
@@ -1105,6 +1115,7 @@ impl Model {
             }
             self.shared_forward(ci, &g, topic, payload, candidates.len() > 1);
             return;
+        }
         }
         }
         if window_slot {
